@@ -936,6 +936,10 @@ impl<'a, R: Read, E: Encryption> Builder<'a, R, E> {
             } else {
                 self.to_writer(rng, &mut enc)?;
             }
+
+            // `Drop` would write the trailing partial group and line as well, but ignores errors
+            enc.finish()?;
+            line_wrapper.finish()?;
         }
 
         // write footer
